@@ -286,6 +286,29 @@ class Interp:
             if i is not None:
                 o.charts[i].extradata = None if op[2] is None else list(op[2])
                 self.charts[i]["extra"] = list(op[2]) if op[2] else None
+        elif kind in ("cextra_append", "cextra_setitem", "cextra_pop"):  # SM only: edit the live extradata list in place
+            i = self._chart(op[1])
+            if i is not None:
+                live = o.charts[i].extradata
+                cur = list(self.charts[i]["extra"] or [])
+                if kind == "cextra_append":
+                    if live is None:
+                        o.charts[i].extradata = [op[2]]
+                    else:
+                        live.append(op[2])
+                    cur.append(op[2])
+                elif cur:
+                    if live is None:
+                        raise Violation("extradata is None although the history gave the chart extra components")
+                    if kind == "cextra_setitem":
+                        j = op[2] % len(cur)
+                        live[j] = op[3]
+                        cur[j] = op[3]
+                    else:
+                        live.pop()
+                        cur.pop()
+                self.charts[i]["extra"] = cur or None
+                self.labels.add("extradata-edited-in-place")
         elif kind == "cdel":  # SSC only; never the note key
             i = self._chart(op[1])
             if i is not None and m_has(self.charts[i], op[2]):
